@@ -78,6 +78,7 @@ func init() {
 			kind = strings.TrimRight(kind, "0123456789")
 			return x.hashToAgg(x.ts.UF("H_gen_"+kind, 256, seed))
 		},
+		vhPath + ".WriteEvents": func(x *Exec, fv FuncV, a []Value) Value { return x.ts.ConstU(64, uint64(x.writeEvents)) },
 		vhPath + ".Note":        func(x *Exec, fv FuncV, a []Value) Value { x.event("note", x.cstr(a[0])); return nil },
 		vhPath + ".TrackWrites": vhTrackWrites,
 		vhPath + ".MarkCaller":  vhMarkCaller,
